@@ -511,6 +511,7 @@ def run(shard, rec, rng):
     anonymous_locals(L, rec, 40)
     abandoned_response(L, rec)
     middleware_release_order(L, rec)
+    handed_over_iterators_and_single_local_managers(L, rec)
     # (b) threads
     TOPS = [o for o in OPS if o != "spawn"]
     for _ in range(cfg["thread_scheds"]):
@@ -709,6 +710,76 @@ def middleware_release_order(L, rec):
         else:
             if seen.get("end") != ("MISSING", "MISSING", None):
                 rec.violation("C18/LEAK-previous-request-visible-after-release", f"after the last response was closed the {variant} still holds {seen.get('end')!r}", case, monitor="reference-store")
+
+
+def handed_over_iterators_and_single_local_managers(L, rec):
+    """An iterator over a namespace belongs to the context that made it: advanced elsewhere (a helper thread, a copied
+    context peeking at it) it still enumerates its maker's values, never the other context's.  And a LocalManager given
+    one bare Local (the documented short form) releases that Local."""
+    for variant in ("copy_context", "thread"):
+        ns = L.Local()
+        box = {}
+
+        def maker():
+            ns.a, ns.b = "A1", "A2"
+            box["it"] = iter(ns)
+
+        def sibling():
+            ns.p, ns.q = "B1", "B2"
+            box["peeked"] = next(box["it"], None)
+
+        def maker_again():
+            box["rest"] = list(box["it"])
+            box["own"] = dict(ns)
+
+        ctx_a, ctx_b = contextvars.copy_context(), contextvars.copy_context()
+        if variant == "copy_context":
+            ctx_a.run(maker)
+            ctx_b.run(sibling)
+            ctx_a.run(maker_again)
+        else:
+            ctx_a.run(maker)
+            t = threading.Thread(target=lambda: ctx_b.run(sibling))
+            t.start()
+            t.join()
+            ctx_a.run(maker_again)
+        rec.case()
+        rec.nontrivial(("handed-over-iterator", variant))
+        rec.observe("iterators_advanced_in_another_context")
+        seen = [box.get("peeked")] + list(box.get("rest") or [])
+        foreign = [x for x in seen if x is not None and x[1] in ("B1", "B2")]
+        if foreign or box.get("own") != {"a": "A1", "b": "A2"}:
+            rec.violation("C18/LEAK-iterator-enumerates-another-contexts-values", f"{variant}: an iterator made in context A and advanced once in context B produced {seen!r}; A's namespace is {box.get('own')!r}",
+                          {"realisation": variant, "scenario": "handed-over-iterator"}, monitor="reference-store")
+    # LocalManager(one local)
+    for kind in ("Local", "list-of-one", "tuple"):
+        ns = L.Local()
+        mgr = L.LocalManager(ns if kind == "Local" else [ns] if kind == "list-of-one" else (ns,))
+        seen = []
+
+        def inner(environ, start_response):
+            seen.append(getattr(ns, "user", None))
+            ns.user = "alice"
+            return [b"ok"]
+
+        app = mgr.make_middleware(inner)
+
+        def worker():
+            for _ in range(2):
+                it = app({}, lambda *a: None)
+                b"".join(it)
+                it.close()
+            ns.user = "bob"
+            mgr.cleanup()
+            seen.append(getattr(ns, "user", None))
+
+        contextvars.copy_context().run(worker)
+        rec.case()
+        rec.nontrivial(("single-local-manager", kind))
+        rec.observe("managers_of_one_local")
+        if seen != [None, None, None]:
+            rec.violation("C18/release-through-manager-releases-nothing", f"LocalManager({kind}): the values seen at the start of two requests and after cleanup() are {seen!r}, all must be None",
+                          {"scenario": "single-local-manager", "kind": kind}, monitor="reference-store")
 
 
 def stress(L, rec, rng, nops):
